@@ -141,7 +141,7 @@ func init() {
 	reg("C12",
 		"Structure of how a blocking wait ends: the select has exactly the three arms mailbox/timer/wake; capture is paired with releaseCapture on all paths; registration is unreachable when the command runs from EXEC; CLIENT UNBLOCK's reply depends on the unblock result; closing/killing a connection reaches the unblock of its blocked command.",
 		"timing ('no earlier than t', 'promptly'); races between unblock, push and timer",
-		nil, ruleC12)
+		nil, ruleC12, ruleC12Deadline, ruleC12TimeoutAgree)
 	reg("C13",
 		"No path of these crash/stall classes is reachable from the socket: (A7) every single-result type assertion on a value taken from a command's args agrees with what the grammar-driven parser stores for every token that reaches it, and every panic in the default arm of a key switch has a case for every producible key; (R-typed-nil) no nil typed-accessor result is dereferenced; (R-payload-agree) no payload assertion can fail for a key type; (lock-balanced, A2-reentrant) no command returns holding, or self-deadlocks on, the database mutex; (R-cmdident) handler behaviour does not depend on the client's spelling of the command.",
 		"sizes/indexes/shifts computed from client integers (A8 not built), framing checks of the request parser, bounds safety of indexes computed from server-side lengths, termination of loops, memory growth, reply latency",
@@ -166,5 +166,5 @@ func init() {
 	reg("C20",
 		"Structure of start-up and shutdown: RequestTermination reaches a close request for the registered connections and WaitForTermination waits for their goroutines; no process-terminating call is reachable from the API; package-level state written at run time is instance-agnostic; the port retry loop depends on an error its callee can return.",
 		"timing of Close, port release by the OS",
-		nil, ruleC20Close, ruleC20NoExit, ruleC20InstanceState, ruleC20Retry)
+		nil, ruleC20Close, ruleC20NoExit, ruleC20InstanceState, ruleC20Retry, ruleC20CancelExits, ruleC20TermPass)
 }
